@@ -1,5 +1,6 @@
 import VaxisModel.Model.EdGen
 import VaxisModel.Lemmas.EdLangTF
+import VaxisModel.Lemmas.EdLangLoops
 
 /-!
 C17 — proofs that the bodies of textinput's `SetContent`, `resegment` and `Update`, translated from
@@ -10,6 +11,7 @@ namespace VaxisModel.Lemmas.EdLangTIBody
 open VaxisModel.Model.EdLang VaxisModel.Model.EdRun VaxisModel.Gen.EditorLang VaxisModel.Model.EdGen
 open VaxisModel.Model
 open VaxisModel.Model.TextInputCl (TIC Ev)
+open VaxisModel.Lemmas.EdLangLoops
 
 @[simp] theorem genTi_setContent : genTi.setContent = tiSetContent := rfl
 @[simp] theorem genTi_update : genTi.update = tiUpdate := rfl
@@ -468,5 +470,65 @@ theorem update_backspace (cl : List A → List (List A)) (al : List A → Bool) 
               ti_arm [sliceE, boundV, sliceV, cmpI, h0, h1, h2, h3, h4, h5, h6, h8]
             · have h8 : ¬ 0 ≤ cursor := by omega
               ti_arm [sliceE, boundV, sliceV, cmpI, h0, h1, h2, h3, h4, h6, h8]
+
+/-- the environments of the loops of an arm of `Update`: the widget, the key event, then the arm's locals -/
+abbrev mkKey (content : List (List A)) (offset : Int) (paste : List A) (s : String) (c a sup : Bool) (t : List A)
+    (locals : Int → Env A) : Int → Int → Env A := fun cc i =>
+  ("m.content", .chars content) :: ("m.cursor", .num cc) :: ("m.offset", .num offset) :: ("m.paste", .str paste) ::
+  ("p0.type", .name "vaxis.Key") :: ("p0.EventType", .name "vaxis.EventPress") :: ("p0.Text", .str t) :: ("p0.String()", .name s) ::
+  ("p0.mod.ModCtrl", .bool c) :: ("p0.mod.ModAlt", .bool a) :: ("p0.mod.ModSuper", .bool sup) :: ("p0", .opaque) :: locals i
+
+theorem update_ctrl_w_inrange (cl : List A → List (List A)) (al : List A → Bool) (m : TIC A) (c a sup : Bool) (t : List A)
+    (h0 : m.cursor ≠ 0) (hr : 0 ≤ m.cursor ∧ m.cursor ≤ m.content.length) :
+    tiRunUpdate genTi cl al m (.key "Ctrl+w" c a sup t) = TextInputCl.update cl al m (.key "Ctrl+w" c a sup t) := by
+  obtain ⟨content, cursor, offset, paste⟩ := m
+  simp only at h0 hr
+  obtain ⟨k, rfl⟩ : ∃ k : Nat, cursor = k := ⟨cursor.toNat, by omega⟩
+  have hk0 : k ≠ 0 := by intro h; subst h; simp at h0
+  have hkl : k ≤ content.length := by omega
+  have e1 : ((k : Int) - 1 + 1).toNat = k := by omega
+  have hn1 := steps_le (fun g => !al g) (content.take k).reverse
+  generalize hN1 : steps (fun g => !al g) (content.take k).reverse = n1 at hn1
+  have hn1' : n1 ≤ k := by simp at hn1; omega
+  have e2 : ((k : Int) - (n1 : Int) - 1 + 1).toNat = k - n1 := by omega
+  have hn2 := steps_le al (content.take (k - n1)).reverse
+  generalize hN2 : steps al (content.take (k - n1)).reverse = n2 at hn2
+  have hn2' : n2 ≤ k - n1 := by simp at hn2; omega
+  have e3 : ((k : Int) - (n1 : Int) - (n2 : Int)).toNat = k - n1 - n2 := by omega
+  have hsw : ∃ e1, execS (tiCx1 genTi cl al) (B.head tiUpdate.body) (env0 ⟨content, k, offset, paste⟩ (.key "Ctrl+w" c a sup t)) =
+      .ok e1 ∧ getV e1 "m.content" = .chars (content.take (k - n1 - n2) ++ content.drop k) ∧
+      getV e1 "m.cursor" = .num ((k : Int) - n1 - n2) ∧ getV e1 "m.offset" = .num offset ∧
+      getV e1 "m.paste" = .str paste ∧ getV e1 "deferred" = .err "unbound deferred" := by
+    sw_simp [cmpI, hk0]
+    rw [bwdLoopSpec content (fun g => !al g) 0
+      (mkKey content offset paste "Ctrl+w" c a sup t (fun i => [("l5", .num k), ("l6", .num i)]))
+      (c := k) (i := (k : Int) - 1)]
+    · simp [e1, getV, setV, hN1]
+      rw [bwdLoopSpec content al 0
+        (mkKey content offset paste "Ctrl+w" c a sup t (fun i => [("l5", .num k), ("l6", .num ((k : Int) - 1 - n1)), ("l7", .num i)]))
+        (c := (k : Int) - n1) (i := (k : Int) - n1 - 1)]
+      · have hb1 : 0 ≤ (k : Int) - (n1 : Int) - n2 ∧ (k : Int) - (n1 : Int) - n2 ≤ content.length := by omega
+        have hb2 : (k : Int) ≤ content.length := by omega
+        have hb3 : (n2 : Int) ≤ (k : Int) - n1 := by omega
+        simp [e2, e3, getV, setV, hN2, sliceE, boundV, sliceV, hb1, hb2, hb3]
+      · intro cc i; simp [getV]
+      · intro cc i g hi hg
+        by_cases hp : al g <;> simp [getV, setV, hi, hg, hp]
+      · intro cc i; simp [getV, setV]
+      · omega
+      · omega
+      · simp [envSize, vSize]; omega
+    · intro cc i; simp [getV]
+    · intro cc i g hi hg
+      by_cases hp : al g <;> simp [getV, setV, hi, hg, hp]
+    · intro cc i; simp [getV, setV]
+    · omega
+    · omega
+    · simp [envSize, vSize]; omega
+  obtain ⟨e, hsw, h1, h2, h3, h4, h5⟩ := hsw
+  rw [run_ok cl al _ _ e _ _ _ _ _ hsw h1 h2 h3 h4 h5]
+  have hir : TextInput.inRange content (k : Int) = true := by simp [TextInput.inRange]; omega
+  have hk0' : ¬ ((k : Int) = 0) := by omega
+  simp [TextInputCl.update, TextInputCl.toG, TextInputCl.ofG, TextInput.keySwitch, hk0', hk0, hir, bwdLoop_steps, hN1, hN2, e3]
 
 end VaxisModel.Lemmas.EdLangTIBody
